@@ -66,12 +66,13 @@ for (f, i, col, k) in sites:
         if t.stdout.strip() != '0':
             print('KILLED-BY-SUITE', desc, file=out, flush=True)
             continue
-        r = sh('./check all quick 2>&1 | grep -E "^VIOLATION|INCONCLUSIVE|BUILD-FAILED" | sed -E "s/ replay=.*//" | sort | uniq -c | head -30', cwd=V, timeout=5400)
-        flagged = sorted(set(re.findall(r'property=(C\d+)', r.stdout)))
+        r = sh('./check all quick 2>&1', cwd=V, timeout=5400)
+        flagged = sorted(set(re.findall(r'^VIOLATION property=(C\d+)', r.stdout, flags=re.M)))
+        incon = sorted(set(re.findall(r'^(?:INCONCLUSIVE property=|BUILD-FAILED)(C?\d*)', r.stdout, flags=re.M)))
         done += 1
         print(('SURVIVOR-CAUGHT by ' + ','.join(flagged)) if flagged else 'SURVIVOR-NOT-CAUGHT', desc, file=out, flush=True)
-        if not flagged and r.stdout.strip():
-            print('   note:', r.stdout.strip()[:300], file=out, flush=True)
+        if incon:
+            print('   inconclusive:', ','.join(incon), file=out, flush=True)
     except subprocess.TimeoutExpired:
         print('TIMEOUT', desc, file=out, flush=True)
     finally:
